@@ -17,7 +17,7 @@ CLAIMS = {
     },
     "C02": {
         "text": "next_write (with reader_min and cursor_cmp under their own contracts, replaced modularly) is proved to grant only regions inside the buffer that overlap no unread byte of any reader, to keep every reader at most one lap behind and to reset readers only when all are drained at the head; channel_write_map returns exactly [head', mapped') and the invariant (which contains mapped <= p_i for readers one lap behind) makes the guarantee stable until the commit; read_map hands out a slice inside the unread path with a cursor satisfying MAPPED_OK, and every writer operation is proved to preserve MAPPED_OK of an arbitrary other mapped reader (non-interference).",
-        "note": "Same trusted base as C01. The callers' single-writer discipline is a precondition here and is checked at the call sites in the source/filter units. reader_min's loop is closed by complete unwinding (n <= 8 from the invariant, unwinding assertion on).",
+        "note": "Same trusted base as C01. The callers' single-writer discipline is a precondition here and is checked at the call sites in the source/filter units. reader_min's loop is closed by complete unwinding (n <= 8 from the invariant, unwinding assertion on). channel.write_map.mono re-checks channel_write_map with its helpers inlined (no helper contracts: robust against helper refactoring) for at most 3 readers: a bounded stand-in listed under 'bounded'.",
         "design": "5/C02",
     },
     "C03": {
@@ -61,13 +61,13 @@ CLAIMS = {
         "design": "5/C06",
     },
     "C07": {
-        "text": "State half, machine-checked: from every runtime state satisfying the invariant, acquire_stop and acquire_abort end with all three workers of every valid stream joined, camera and storage not running, the sink channel accepting writes again, the monitor reader drained and unmapped, and the runtime Armed; abort refuses writes and fires the trigger first. Every path through the three worker bodies clears is_running/is_stopping, stops its device and leaves no reader mapped (source.thread, sink.thread, filter.thread). A ghost 'will this join return' obligation in the thread_join stub proves that no worker is ever joined that nobody has told or will tell to stop (this is what a failed acquire_start used to violate).",
+        "text": "State half, machine-checked: from every runtime state satisfying the invariant, acquire_stop and acquire_abort end with all three workers of every valid stream joined, camera and storage not running, the sink channel accepting writes again, the monitor reader drained and unmapped, and the runtime Armed; abort refuses writes and fires the trigger first. Every path through the three worker bodies clears is_running/is_stopping, stops its device and leaves no reader mapped (source.thread, sink.thread, filter.thread). A ghost 'will this join return' obligation in the thread_join stub proves that no worker is ever joined that nobody has told or will tell to stop (this is what a failed acquire_start used to violate). A second ghost obligation there ties abort's release-by-refusal to the joins: once abort has refused writes on the sink channel it keeps refusing until the source and the filter (the workers that write into it) are joined; a third one forbids raising the filter/sink stop flags while the source body still runs.",
         "note": "NOT decided: that abort/stop return in finite time. Termination of the joins needs the workers to terminate, which needs scheduler fairness, the liveness half of C03 and the camera's wake-up; only the safety obligations listed are proved. filter.thread and filter.process_data are bounded stand-ins.",
         "design": "5/C07",
     },
     "C08": {
         "text": "A runtime representation invariant RI (wiring; a device slot is NULL or an open device; a device is Running only on behalf of an unjoined worker; a worker that uses a device has it; no sink/filter worker without a source worker or a stop request; monitor status Ok) is proved to be preserved by acquire_init, configure, start, stop, abort, get_state, execute_trigger, map_read, unmap_read and to be consumed by shutdown, on the real acquire.c composed with the real controller code of source.c/sink.c/filter.c, from an arbitrary state satisfying RI. Devices are heap objects freed by close, so a second close or any later use is a memory-safety failure; shutdown closes every open device exactly once after joining all workers; cameras and storage are started only when Armed; get_state reports Running only while a worker is alive. Induction over the client program gives all programs.",
-        "note": "Known finding (listed in known_findings.json, not repaired): acquire_configure with a different device identifier while the acquisition runs closes the device under its live worker. Heavy units are case-split: one stream arbitrary, the other quiescent. HAL functions are stub contracts with a ghost typestate (real HAL enforced in hal.*); worker bodies are not executed, thread_join applies their proved exit effects; thread creation is assumed to succeed; device_manager (C++) stubbed.",
+        "note": "Known finding (listed in known_findings.json, not repaired): acquire_configure with a different device identifier while the acquisition runs closes the device under its live worker. Both streams are arbitrary in every unit; the arbitrary runtime is any heap runtime satisfying RI (stored settings and channel internals zero); the specification text (ri.h) is compiled without CBMC's pointer checks, the real code and all stubs keep them. HAL functions are stub contracts with a ghost typestate (real HAL enforced in hal.*); worker bodies are not executed, thread_join applies their proved exit effects; thread creation is assumed to succeed; device_manager (C++) stubbed.",
         "design": "5/C08",
     },
     "C09": {
@@ -91,7 +91,7 @@ CLAIMS = {
         "design": "5/C17",
     },
     "C18": {
-        "text": "simcam_start resets both frame counters to -1 and spawns one streamer; simcam_get_frame (wait loop under a loop contract, environment may publish frames and stop the camera at every wake-up): a delivered frame has hardware id == frame_id > the id delivered before, which becomes the last delivered id; simcam_execute_trigger sets the trigger under the lock and notifies; simcam_stop clears is_running, passes the lock, then notifies frame_ready and trigger_ready (ghost lock/notify discipline automaton: a frame call or the streamer about to sleep cannot miss it) and joins exactly once. Streamer body: published ids only grow and count every generated frame; with the frame trigger enabled the number of generated frames never exceeds the number of triggers fired.",
+        "text": "simcam_start resets both frame counters to -1 and spawns one streamer; simcam_get_frame (wait loop under a loop contract, environment may publish frames and stop the camera at every wake-up): a delivered frame has hardware id == frame_id > the id delivered before, which becomes the last delivered id; a frame call that observes the stop writes neither the caller's buffer nor the frame info (the frame rendered for stop's own wake-up trigger is never delivered); simcam_execute_trigger sets the trigger under the lock and notifies; simcam_stop clears is_running, passes the lock, then notifies frame_ready and trigger_ready (ghost lock/notify discipline automaton: a frame call or the streamer about to sleep cannot miss it) and joins exactly once. Streamer body: published ids only grow and count every generated frame; with the frame trigger enabled the number of generated frames never exceeds the number of triggers fired.",
         "note": "NOT decided: that stop returns (join termination) and scheduler fairness. The streamer unit is bounded (3 iterations, 3 spurious wake-ups) and case-split on binning.",
         "design": "5/C18",
     },
@@ -141,7 +141,7 @@ def main():
                      "kind_free_text": "contract-based deductive verification: goto-cc on harnesses that #include the real .c files, goto-instrument --dfcc (function + loop contracts), cbmc SAT back end, native ASan replay of counterexamples"}],
         "checks": checks,
         "not_applicable": na,
-        "notes": "Exit codes: 0 all obligations discharged; 1 VIOLATION; 2 tooling (timeout, locator, vacuity) - never a violation. known_findings.json lists recorded findings and fixed defects.",
+        "notes": "Exit codes: 0 all obligations discharged; 1 VIOLATION; 2 tooling / undecided (timeout, a harness that no longer builds, vacuity, a changed loop structure for which the bounded fall-back run found nothing) - never a violation. When a loop header is rewritten the loop contract is bound by position and only tagged obligations count; when loops were added or removed the unit is re-run bounded without loop contracts and only failing tagged obligations are reported (DESIGN 12.5). known_findings.json lists recorded findings and fixed defects; seeded/ holds 50 confirmed property-breaking changes (all reported), benign/ 10 behaviour-preserving refactorings (all quiet); the thorough tier replays both sets.",
     }
     json.dump(m, open(os.path.join(VERIF, "MANIFEST.json"), "w"), indent=1)
 
